@@ -44,6 +44,11 @@ class FunctionReport:
                                           'line': ob.lineno, 'cex': None})
             d['instances'] += 1
             d['ms'] += ob.ms
+            if getattr(ob, 'crosscheck', None):
+                d.setdefault('crosscheck', {}).setdefault(ob.crosscheck, 0)
+                d['crosscheck'][ob.crosscheck] += 1
+            if getattr(ob, 'disagreement', False):
+                d['disagreement'] = True
             if ob.solver:
                 d['solver'].add(ob.solver)
             if ob.result == 'refuted':
@@ -294,8 +299,30 @@ def verify_function(world, contract, discharge=True):
 
 
 def discharge_all(obligations, timeout_ms=None):
+    thorough = os.environ.get('VERIF_TIER_EFFECTIVE') == 'thorough'
     for ob in obligations:
-        discharge(ob, timeout_ms or TIMEOUT_MS)
+        discharge(ob, (timeout_ms or TIMEOUT_MS) * (3 if thorough else 1))
+        if thorough and ob.result == 'discharged' and ob.solver != 'simplifier':
+            crosscheck(ob)
+
+
+def crosscheck(ob):
+    """Thorough tier: a second solver must not contradict a discharge (disagreement = checker defect)."""
+    g, _sk = _skolemize_goal(simp(ob.goal))
+    s = z3.Solver()
+    for h in ob.hyps:
+        s.add(h)
+    s.add(z3.Not(g))
+    other = 'cvc5' if not str(ob.solver).startswith('cvc5') else 'z3'
+    if other == 'cvc5':
+        r = cvc5_check(s, 10000)
+    else:
+        s.set('timeout', 10000)
+        rr = s.check()
+        r = 'unsat' if rr == z3.unsat else ('sat' if rr == z3.sat else 'unknown')
+    ob.crosscheck = '%s:%s' % (other, r)
+    if r == 'sat' and other == 'z3':
+        ob.disagreement = True      # z3 with MBQI found a model of hypotheses + negated goal
 
 
 def discharge(ob, timeout_ms):
